@@ -971,7 +971,10 @@ get_trait(has_traits_object *obj, PyObject *name, int instance)
         return (PyObject *)trait;
     }
 
-    /* Otherwise, create an instance trait dictionary if it does not exist: */
+    /* Otherwise, create an instance trait dictionary if it does not exist
+       (a 'trait_added' listener run by get_prefix_trait may have created it
+       in the meantime): */
+    itrait_dict = obj->itrait_dict;
     if (itrait_dict == NULL) {
         obj->itrait_dict = itrait_dict = (PyDictObject *)PyDict_New();
         if (itrait_dict == NULL) {
